@@ -19,23 +19,35 @@ int excId(std::exception_ptr p)
     catch (...) { return -1; }
 }
 
-using T1 = std::tuple<int>;
-using T2 = std::tuple<int, int>;
-using T3 = std::tuple<int, int, int>;
+// the value type of the programs: an int whose moved-from state is observable, so that a continuation
+// which is handed a value that was moved out from under it (instead of the produced value) shows in the log
+struct MV {
+    int v;
+    MV() : v(0) { }
+    MV(int x) : v(x) { }
+    MV(const MV&) = default;
+    MV& operator=(const MV&) = default;
+    MV(MV&& o) noexcept : v(o.v) { o.v = -7777; }
+    MV& operator=(MV&& o) noexcept { v = o.v; o.v = -7777; return *this; }
+};
 
-long tupleVal(const T1& t) { return std::get<0>(t); }
-long tupleVal(const T2& t) { return std::get<0>(t) + 100L * std::get<1>(t); }
-long tupleVal(const T3& t) { return std::get<0>(t) + 100L * std::get<1>(t) + 10000L * std::get<2>(t); }
+using T1 = std::tuple<MV>;
+using T2 = std::tuple<MV, MV>;
+using T3 = std::tuple<MV, MV, MV>;
+
+long tupleVal(const T1& t) { return std::get<0>(t).v; }
+long tupleVal(const T2& t) { return std::get<0>(t).v + 100L * std::get<1>(t).v; }
+long tupleVal(const T3& t) { return std::get<0>(t).v + 100L * std::get<1>(t).v + 10000L * std::get<2>(t).v; }
 
 struct Slot {
     // exactly one of these is set
-    std::unique_ptr<Async::Promise<int>> pi;
+    std::unique_ptr<Async::Promise<MV>> pi;
     std::unique_ptr<Async::Promise<void>> pv;
     std::unique_ptr<Async::Promise<T1>> p1;
     std::unique_ptr<Async::Promise<T2>> p2;
     std::unique_ptr<Async::Promise<T3>> p3;
     std::unique_ptr<Async::Promise<Async::Any>> pa;
-    std::shared_ptr<Async::Deferred<int>> def;   // resolver/rejection kept by the program
+    std::shared_ptr<Async::Deferred<MV>> def;   // resolver/rejection kept by the program
     bool movedOut = false;
     Async::PromiseBase* base() {
         if (pi) return pi.get(); if (pv) return pv.get(); if (p1) return p1.get(); if (p2) return p2.get(); if (p3) return p3.get(); if (pa) return pa.get();
@@ -48,34 +60,43 @@ struct Interp {
     std::string log;
     void ev(const std::string& s) { if (!log.empty()) log += ","; log += s; }
 
-    long argOf(int v) { return v; }
+    long argOf(const MV& v) { return v.v; }
     long argOf(const T1& t) { return tupleVal(t); }
     long argOf(const T2& t) { return tupleVal(t); }
     long argOf(const T3& t) { return tupleVal(t); }
-    long argOf(const Async::Any& a) { return a.is<int>() ? a.cast<int>() : 0; }
+    long argOf(const Async::Any& a) { return a.is<MV>() ? a.cast<MV>().v : 0; }
 
     // attach a continuation of the requested kind to a promise with value type V; returns the derived slot
-    template <typename V, typename RejF>
-    Slot attachWith(Async::Promise<V>& p, int cb, const std::string& kind, long karg, RejF rejf)
+    template <typename V, typename Param, typename RejF>
+    Slot attachStyle(Async::Promise<V>& p, int cb, const std::string& kind, long karg, RejF rejf)
     {
         Slot out;
         if (kind == "val") {
-            auto d = p.then([this, cb, karg](const V& v) -> int { long a = argOf(v); ev("c" + std::to_string(cb) + "(" + std::to_string(a) + ")"); return static_cast<int>(a + karg); }, rejf);
-            out.pi = std::make_unique<Async::Promise<int>>(std::move(d));
+            auto d = p.then([this, cb, karg](Param v) -> MV { long a = argOf(v); ev("c" + std::to_string(cb) + "(" + std::to_string(a) + ")"); return MV(static_cast<int>(a + karg)); }, rejf);
+            out.pi = std::make_unique<Async::Promise<MV>>(std::move(d));
         } else if (kind == "void") {
-            auto d = p.then([this, cb](const V& v) -> void { long a = argOf(v); ev("c" + std::to_string(cb) + "(" + std::to_string(a) + ")"); }, rejf);
+            auto d = p.then([this, cb](Param v) -> void { long a = argOf(v); ev("c" + std::to_string(cb) + "(" + std::to_string(a) + ")"); }, rejf);
             out.pv = std::make_unique<Async::Promise<void>>(std::move(d));
         } else { // prom: returns the promise held in slot karg (moved out on first use)
-            auto d = p.then([this, cb, karg](const V& v) -> Async::Promise<int> {
+            auto d = p.then([this, cb, karg](Param v) -> Async::Promise<MV> {
                 long a = argOf(v); ev("c" + std::to_string(cb) + "(" + std::to_string(a) + ")");
                 Slot& s = slots.at(static_cast<size_t>(karg));
-                if (!s.pi || s.movedOut) return Async::Promise<int>::resolved(-999);
+                if (!s.pi || s.movedOut) return Async::Promise<MV>::resolved(MV(-999));
                 s.movedOut = true;
                 return std::move(*s.pi);
             }, rejf);
-            out.pi = std::make_unique<Async::Promise<int>>(std::move(d));
+            out.pi = std::make_unique<Async::Promise<MV>>(std::move(d));
         }
         return out;
+    }
+
+    // attach a continuation of the requested kind to a promise with value type V; returns the derived slot.
+    // Continuations with an even id take the value by const reference, those with an odd id by value.
+    template <typename V, typename RejF>
+    Slot attachWith(Async::Promise<V>& p, int cb, const std::string& kind, long karg, RejF rejf)
+    {
+        if (cb % 2 == 0) return attachStyle<V, const V&>(p, cb, kind, karg, rejf);
+        return attachStyle<V, V>(p, cb, kind, karg, rejf);
     }
 
     template <typename V>
@@ -115,14 +136,14 @@ void registerAsync(std::map<std::string, Op>& ops)
             if (a.empty()) continue;
             try {
                 if (a[0] == "new") {
-                    Slot s; auto def = std::make_shared<Async::Deferred<int>>();
-                    s.pi = std::make_unique<Async::Promise<int>>([&](Async::Resolver& r, Async::Rejection& j) { *def = Async::Deferred<int>(std::move(r), std::move(j)); });
+                    Slot s; auto def = std::make_shared<Async::Deferred<MV>>();
+                    s.pi = std::make_unique<Async::Promise<MV>>([&](Async::Resolver& r, Async::Rejection& j) { *def = Async::Deferred<MV>(std::move(r), std::move(j)); });
                     s.def = def; in.slots.push_back(std::move(s)); out("c" + std::to_string(in.slots.size() - 1));
                 } else if (a[0] == "res") {
-                    Slot s; s.pi = std::make_unique<Async::Promise<int>>(Async::Promise<int>::resolved(atoi(a[1].c_str())));
+                    Slot s; s.pi = std::make_unique<Async::Promise<MV>>(Async::Promise<MV>::resolved(MV(atoi(a[1].c_str()))));
                     in.slots.push_back(std::move(s)); out("c" + std::to_string(in.slots.size() - 1));
                 } else if (a[0] == "rej") {
-                    Slot s; s.pi = std::make_unique<Async::Promise<int>>(Async::Promise<int>::rejected(Ex { atoi(a[1].c_str()) }));
+                    Slot s; s.pi = std::make_unique<Async::Promise<MV>>(Async::Promise<MV>::rejected(Ex { atoi(a[1].c_str()) }));
                     in.slots.push_back(std::move(s)); out("c" + std::to_string(in.slots.size() - 1));
                 } else if (a[0] == "then") {
                     // then <p> <cb> <val:k|void|prom:q> <ign|rth|cus:cb>
@@ -135,7 +156,7 @@ void registerAsync(std::map<std::string, Op>& ops)
                     in.slots.emplace_back(); size_t di = in.slots.size() - 1;
                     Slot d;
                     Slot& spr = in.slots[p];
-                    if (spr.pi) d = in.attach<int>(*spr.pi, cb, kind, karg, rej, rejcb);
+                    if (spr.pi) d = in.attach<MV>(*spr.pi, cb, kind, karg, rej, rejcb);
                     else if (spr.p1) d = in.attach<T1>(*spr.p1, cb, kind, karg, rej, rejcb);
                     else if (spr.p2) d = in.attach<T2>(*spr.p2, cb, kind, karg, rej, rejcb);
                     else if (spr.p3) d = in.attach<T3>(*spr.p3, cb, kind, karg, rej, rejcb);
@@ -147,7 +168,7 @@ void registerAsync(std::map<std::string, Op>& ops)
                 } else if (a[0] == "resolve") {
                     long p = atol(a[1].c_str());
                     if (p < 0 || static_cast<size_t>(p) >= in.slots.size() || !in.slots[p].def) return "bad-prog";
-                    in.slots[p].def->resolve(atoi(a[2].c_str())); out("ok");
+                    in.slots[p].def->resolve(MV(atoi(a[2].c_str()))); out("ok");
                 } else if (a[0] == "reject") {
                     long p = atol(a[1].c_str());
                     if (p < 0 || static_cast<size_t>(p) >= in.slots.size() || !in.slots[p].def) return "bad-prog";
